@@ -72,6 +72,23 @@ Theorem C18_keeps_relevant_in : forall b ks l t, lite b ks = Ok l ->
   In t (b_txs b) -> is_spv t = false -> touches ks t = true -> In t (b_txs l).
 Proof. exact keeps_relevant_in. Qed.
 
+(* "in full" includes the position: every kept transaction has, in the lite block and in the block the
+   client generates from it, the tx_index it has in the full block — the placeholders' replacement
+   counts add up — so Block::generate writes the same tx_ordinal into its output slips.
+   (kept_idx i l = the non-placeholder transactions of l, each with the index Block::generate gives it;
+   for a full block these are the positions: kept_idx_full.) *)
+Theorem C18_ordinals : forall b ks l, no_spv (b_txs b) -> lite b ks = Ok l ->
+  kept_idx 0 (b_txs l) = filter (fun p => touches ks (snd p)) (kept_idx 0 (b_txs b)).
+Proof. exact ordinals_preserved. Qed.
+
+Theorem C18_ordinals_wire : forall b ks l c, no_spv (b_txs b) -> lite b ks = Ok l -> receive l = Ok c ->
+  map fst (kept_idx 0 (b_txs c)) = map fst (filter (fun p => touches ks (snd p)) (kept_idx 0 (b_txs b))).
+Proof. exact ordinals_preserved_wire. Qed.
+
+Theorem C18_full_block_positions : forall l i, no_spv l ->
+  map fst (kept_idx i l) = tx_indices i l /\ map snd (kept_idx i l) = l.
+Proof. exact kept_idx_full. Qed.
+
 (* the wire trip keeps the hash and the header *)
 Theorem C18_wire_hash : forall b ks l,
   generated b -> ~ Known_C18_stale b ->
@@ -179,6 +196,9 @@ Print Assumptions C18_header_same.
 Print Assumptions C18_header_refuted.
 Print Assumptions C18_keeps_relevant.
 Print Assumptions C18_keeps_relevant_in.
+Print Assumptions C18_ordinals.
+Print Assumptions C18_ordinals_wire.
+Print Assumptions C18_full_block_positions.
 Print Assumptions C18_wire_hash.
 Print Assumptions C18_root.
 Print Assumptions C18_root_refuted.
